@@ -12,7 +12,10 @@ from vt import rxn as R
 PID = 'C06'
 RULE = ('random balanced reactions (C05 generator) over 15 chemicals with known Hf; clauses: dH formula (mol/wt, phase-less/phase-tagged with latent heats), '
         'isothermal change of Hnet = dH*fed + sensible part (literal form at 298.15 K with every species in its reference phase), adiabatic closure with heat input Q; '
-        'gas and liquid feeds 280-450 K; single/parallel/series/system. non-trivial = X>0, reactant fed, >=3 species; distinct = hash of the case')
+        'gas and liquid feeds 280-450 K; single/parallel/series/system. Coverage additions: dH with X=0, with Glucose (solid reference) and phases g/l/s (all six latent branches), dH of a '
+        're-based copy (copy(basis=) and the basis setter) against the formula in the other basis; isothermal formation-enthalpy change of parallel/series/system = sum of member dH x reactant '
+        'amount seen by the member (feed for parallel, running for series); sparse feeds (products start from zero); heat inputs worth up to +-100 K, Q by keyword and an explicit Q=0; '
+        'streams on another property package. non-trivial = X>0, reactant fed, >=3 species; distinct = hash of the case')
 MIN_NONTRIVIAL = {'quick': 300, 'thorough': 10000}
 ASSUMPTIONS = ['heats of formation, Hvap(298.15) and Hfus are read from the library chemicals (the check judges the wiring, not the data)',
                'isothermal clause away from the reference state uses the Kirchhoff-corrected identity (DESIGN C06)']
@@ -22,7 +25,9 @@ NOGLU = tuple(i for i in R.IDS if i != 'Glucose')
 
 
 def required(tier):
-    return ['dH', 'dH:tagged', 'dH:wt', 'isothermal', 'isothermal-literal', 'adiabatic', 'adiabatic:Q', 'adiabatic:no-conversion+Q', 'dH:set-item', 'comb:parallel', 'comb:series', 'comb:system']
+    return ['dH', 'dH:tagged', 'dH:wt', 'isothermal', 'isothermal-literal', 'adiabatic', 'adiabatic:Q', 'adiabatic:no-conversion+Q', 'dH:set-item', 'comb:parallel', 'comb:series', 'comb:system',
+            'dH:X=0', 'dH:solid-phase', 'dH:solid-reference', 'dH:rebased', 'isothermal:set-dH-times-fed', 'feed:sparse', 'adiabatic:Q-large', 'adiabatic:Q-keyword', 'adiabatic:Q=0-explicit',
+            'stream:other-package']
 
 
 def gen_case(rng):
@@ -35,7 +40,11 @@ def gen_case(rng):
         allowed = GAS_REF if phase == 'g' else LIQ_REF
     else:
         phase = rng.choice('lg'); allowed = NOGLU
-    phmap = {i: rng.choice('lg') for i in R.IDS} if tagged else None
+    phases = None
+    if kind == 'dH':
+        allowed = R.IDS                                   # no stream is built: Glucose (solid reference, no gas enthalpy model) can take part
+        if tagged and rng.random() < 0.5: phases = ['g', 'l', 's']
+    phmap = {i: rng.choice(phases or 'lg') for i in R.IDS} if tagged else None
     def one():
         for _ in range(30):
             d = R.gen_reaction(rng, allowed=allowed, phases_p=0)
@@ -43,6 +52,7 @@ def gen_case(rng):
         d['basis'] = basis
         d['X'] = rng.choice([1.0, 0.5, round(rng.uniform(0.01, 1), 4), round(rng.uniform(0.01, 0.3), 4)])
         if tagged: d['ph'] = {i: phmap[i] for i in d['st']}
+        if kind == 'dH' and rng.random() < 0.1: d['X'] = 0.0
         return d
     comb = 'single' if kind in ('dH', 'literal') else rng.choice(['single', 'single', 'parallel', 'series', 'system'])
     if comb == 'single': members = [one()]
@@ -59,6 +69,12 @@ def gen_case(rng):
     flows = {i: round(10 ** rng.uniform(2.5, 3.5), 3) for i in allowed}   # plentiful co-reactants: every side stays feasible
     for m in (members if comb != 'system' else [r for mm in members for r in mm['rx']]):
         flows[m['reactant']] = round(10 ** rng.uniform(0, 1.3), 4)
+    sparse = kind != 'dH' and rng.random() < 0.4
+    if sparse:
+        # arbitrary non-negative compositions: species nobody consumes are absent with probability 0.5 (products then appear in an empty slot)
+        consumed = {i for m in (members if comb != 'system' else [r for mm in members for r in mm['rx']]) for i, v in m['st'].items() if v < 0}
+        for i in list(flows):
+            if i not in consumed and rng.random() < 0.5: flows[i] = 0.0
     # boundary of the quantifier: nothing converts (X = 0 everywhere, or the reactants are absent from the feed) while heat may still be added
     noconv = None
     if kind in ('iso', 'adiabatic') and rng.random() < 0.15:
@@ -69,8 +85,20 @@ def gen_case(rng):
     T = 298.15 if kind == 'literal' else round(rng.uniform(280, 450), 2)
     Q = 0.0
     if kind == 'adiabatic' and rng.random() < 0.6: Q = rng.choice([-1, 1]) * 10 ** rng.uniform(3, 6)
-    return {'kind': kind, 'comb': comb, 'members': members, 'tagged': tagged, 'phmap': phmap, 'basis': basis, 'flows': flows,
+    case = {'kind': kind, 'comb': comb, 'members': members, 'tagged': tagged, 'phmap': phmap, 'basis': basis, 'flows': flows,
             'phase': phase, 'T': T, 'P': rng.choice([101325., 5e4, 5e5]), 'Q': Q, 'noconv': noconv}
+    if phases: case['phases'] = phases
+    if sparse: case['sparse'] = True
+    if kind == 'dH' and rng.random() < 0.3: case['rebase'] = rng.choice(['copy', 'setter'])
+    if kind == 'adiabatic':
+        u = rng.random()
+        if u < 0.25:
+            # a heat input worth up to +-100 K of sensible heat (estimate: 40 / 100 kJ/kmol/K for gas / liquid)
+            ntot = sum(flows.values()); frac_g = (sum(v for i, v in flows.items() if phmap[i] == 'g') / ntot) if tagged else (1.0 if phase == 'g' else 0.0)
+            case['Q'] = round(ntot * (40. * frac_g + 100. * (1 - frac_g)) * rng.uniform(-100, 100), 3); case['Qlarge'] = True
+        case['Qform'] = rng.choice(['positional', 'positional', 'keyword', 'explicit'])      # explicit: Q passed even when it is 0
+    if kind in ('iso', 'adiabatic') and rng.random() < 0.2: case['foreign'] = True         # the stream lives on another property package than the reaction
+    return case
 
 
 def latent(chem, phase):
@@ -95,6 +123,7 @@ def expected_dH(d, th):
 
 
 def build_stream(case, th):
+    if case.get('foreign'): th = R.thermo(perm=True)
     if case['tagged']:
         s = tmo.MultiStream(None, phases=('g', 'l'), T=case['T'], P=case['P'], thermo=th)
         for i, v in case['flows'].items(): s.imol[case['phmap'][i], i] = v
@@ -148,6 +177,23 @@ def run_case(case, rec):
         rec.check(abs(got - exp) <= 1e-11 * scale + 1e-12 * abs(exp), 'dH', tag, f'dH={got!r} but X*sum(nu*(Hf+latent)){"/MW" if d["basis"] == "wt" else ""} = {exp!r}', residual=abs(got - exp) / scale)
         if case['tagged']: rec.hit('dH:tagged')
         if d['basis'] == 'wt': rec.hit('dH:wt')
+        if d['X'] == 0: rec.hit('dH:X=0')
+        if d.get('ph') and 's' in d['ph'].values(): rec.hit('dH:solid-phase')
+        if d.get('ph') and any(ch[i].phase_ref == 's' and d['ph'][i] != 's' for i in d['st']): rec.hit('dH:solid-reference')
+        if case.get('rebase'):
+            # the heat of reaction reported by a re-based reaction: same formula, per unit of the other basis
+            other = 'wt' if d['basis'] == 'mol' else 'mol'
+            try:
+                if case['rebase'] == 'copy': r2 = rx.copy(basis=other)
+                else: r2 = rx.copy(); r2.basis = other
+                got2 = r2.dH
+            except Exception as e:
+                rec.exception('dH', e, what=f'dH of a reaction re-based to {other} ({case["rebase"]}) raised {type(e).__name__}: {e}'); return
+            exp2 = expected_dH(dict(d, basis=other), th)
+            scale2 = max(abs(exp2), max(abs(ch[i].Hf) for i in d['st']) * 1e-3 / (ch[d['reactant']].MW if other == 'wt' else 1.0), 1e-300)
+            rec.hit('dH:rebased')
+            rec.check(abs(got2 - exp2) <= 1e-10 * scale2, 'dH', f'rebased-{case["rebase"]}/{tag}', f'after re-basing to {other}: dH={got2!r} but X*sum(nu*(Hf+latent)){"/MW" if other == "wt" else ""} = {exp2!r}', residual=abs(got2 - exp2) / scale2)
+            rec.check(abs(rx.dH - got) <= 1e-15 * abs(got), 'dH', f'rebased-{case["rebase"]}/original-changed/{tag}', f're-basing a copy changed the dH of the original: {got!r} -> {rx.dH!r}')
         if d['X'] > 0 and len(d['st']) >= 3: rec.mark_nontrivial(case_hash(case))
         return
     s = build_stream(case, th)
@@ -189,12 +235,47 @@ def run_case(case, rec):
                 lit = rx.dH * fed_units
                 rec.check(abs((Hnet1 - Hnet0) - lit) <= 1e-9 * max(abs(lit), abs(Hnet0)), 'isothermal-literal', tag,
                           f'at 298.15 K in reference phases: Hnet changed by {Hnet1 - Hnet0!r} but dH*fed = {lit!r}', residual=abs((Hnet1 - Hnet0) - lit) / max(abs(lit), abs(Hnet0), 1e-300))
+        if case['comb'] != 'single':
+            # the formation-enthalpy change of a set / system is the sum over its members of (reported heat of the member) x (reactant amount the member sees):
+            # the feed for parallel members, the running composition for series members and from one part of a system to the next
+            from vt.workloads.c05 import model as dense
+            key = (lambda i: (case['phmap'][i], i)) if case['tagged'] else (lambda i: i)
+            fl = {key(i): v for i, v in case['flows'].items() if v}
+            if case['comb'] == 'system': groups = [(m['k'], m['rx'], [rx[a]] if m['k'] == 'single' else [rx[a][b] for b in range(len(m['rx']))]) for a, m in enumerate(case['members'])]
+            else: groups = [(case['comb'], case['members'], [rx[b] for b in range(len(case['members']))])]
+            exp = 0.0; okdH = True
+            for k_, ds, objs in groups:
+                for d, o in zip(ds, objs):
+                    r = d['reactant']
+                    fed = fl.get(key(r), 0.0) * (ch[r].MW if d['basis'] == 'wt' else 1.0)
+                    lat = 0.0
+                    if d.get('ph'):
+                        lat = d['X'] * sum((v / -d['st'][r]) * latent(ch[i], d['ph'][i]) for i, v in d['st'].items())
+                        if d['basis'] == 'wt': lat /= ch[r].MW
+                    try: dh = o.dH
+                    except Exception as e:
+                        rec.exception('dH', e, what=f'dH of a member raised {type(e).__name__}: {e}'); okdH = False; break
+                    if np.ndim(dh) != 0: okdH = False; break          # judged by the set-item clause
+                    exp += (dh - lat) * fed
+                    if k_ == 'series' or k_ == 'single': fl = R.model_apply(fl, d)
+                if not okdH: break
+                if k_ == 'parallel': fl = dense({'comb': 'parallel', 'members': ds}, fl)
+            if okdH:
+                rec.hit('isothermal:set-dH-times-fed')
+                den = max(abs(exp), abs(Hnet0), 1e-300)
+                rec.check(abs(dHf_model - exp) <= 1e-9 * den, 'isothermal', f'set-dH-times-fed/{tag}',
+                          f'formation-enthalpy change {dHf_model!r} != sum over members of (dH - latent)*fed = {exp!r}', residual=abs(dHf_model - exp) / den)
+        if case.get('sparse'): rec.hit('feed:sparse')
+        if case.get('foreign'): rec.hit('stream:other-package')
         rec.mark_nontrivial(case_hash(case))
         return
     # adiabatic
     Q = case['Q']
     try:
-        rx.adiabatic_reaction(s, Q) if Q else rx.adiabatic_reaction(s)
+        qf = case.get('Qform', 'positional')
+        if qf == 'keyword' and Q: rx.adiabatic_reaction(s, Q=Q); rec.hit('adiabatic:Q-keyword')
+        elif qf == 'explicit' and not Q: rx.adiabatic_reaction(s, 0.0); rec.hit('adiabatic:Q=0-explicit')
+        else: rx.adiabatic_reaction(s, Q) if Q else rx.adiabatic_reaction(s)
     except InfeasibleRegion:
         rec.refuse('infeasible'); return
     except Exception as e:
@@ -210,6 +291,9 @@ def run_case(case, rec):
     rec.check(res <= 1e-5 * C1 + 1e-12 * abs(Hnet0), 'adiabatic', tag + ('/Q' if Q else ''), f'Hnet after {Hnet1!r} != Hnet before + Q = {Hnet0 + Q!r} (residual {res:.3g} kJ/hr, C={C1:.4g} kJ/hr/K, T {case["T"]} -> {T1:.3f})',
               residual=res / max(C1, 1e-300))
     if Q: rec.hit('adiabatic:Q')
+    if Q and case.get('Qlarge'): rec.hit('adiabatic:Q-large')
+    if case.get('sparse'): rec.hit('feed:sparse')
+    if case.get('foreign'): rec.hit('stream:other-package')
     if case.get('noconv'): rec.hit('adiabatic:no-conversion' + ('+Q' if Q else ''))
     rec.mark_nontrivial(case_hash(case))
 
